@@ -23,6 +23,30 @@ CHECKS = {
         technique=TECH + 'seeded schedule (hash order, statement order, iteration tie-break) + '
                   'reject_step/foreign_activity faults, per-cycle oracle against a reference model',
         design='5 C01'),
+    'C02': dict(
+        level='exploration',
+        text='Seeded search: the three real simulators run on the same block object (pre-synthesis '
+             'with limb-boundary widths, synthesized merged/unmerged, optimized) in '
+             'scheduler-chosen interleavings (skew, batch sizes, step / step_multiple / run), every '
+             'commonly traced wire compared per cycle index and memories at the end; RefSim '
+             'attributes a divergence. Sampling, not proof.',
+        note='Trusted: gcc/dlopen run for real and are not faulted; RefSim only attributes. '
+             'Known finding: CompiledSimulation with addrwidth > 64 (known_findings.json).',
+        technique=TECH + 'replica lock-step under seeded interleaving + reject_step faults, '
+                  'trace/memory equality oracle',
+        design='5 C02'),
+    'C15': dict(
+        level='exploration',
+        text='Seeded histories of legal and rejected steps on each simulator with a step_multiple '
+             'twin: inspect vs trace after every step, trace length vs accepted steps, planted '
+             'wrong expected_outputs cells vs the parsed report, print_vcd/print_trace parsed '
+             'back, rtl_assert firing cycle predicted by the reference model, out-of-range inputs '
+             '(negative and too large) refused by all three simulators. Sampling, not proof.',
+        note='Trusted: the VCD/print_trace/report readers in verifsim/props/c15.py; RefSim for '
+             'the assertion cycle.',
+        technique=TECH + 'step histories with reject_step and assertion faults at scheduler-chosen '
+                  'cycles; channel-agreement oracles over the recorded history',
+        design='5 C15'),
 }
 
 NOT_APPLICABLE = {
